@@ -12,14 +12,27 @@ RULE = ('vector: exhaustive, every ascending label list (duplicates allowed, als
         'peaks: exhaustive, every score assignment over three values to up to 5 (quick) / 7 (thorough) peaks x three splits into correlations '
         '(with an empty correlation) x every count 0..n+1 and -1,-2; random: up to 8 correlations x 12 peaks with heavy ties. create: '
         'createPeaks with tied heights and peaksCount below/at/above the number of peaks. seeds: createPeaks per correlation then selectPeaks. '
+        'xcorr: exhaustive, every pair of 0/1 vectors of lengths 0..6 x 0..4 (quick) / 0..8 x 0..5 (thorough) through the code\'s own '
+        'correlate(valid, fft) wrapper, including empty inputs and the swapped branch (second vector longer); random: lengths up to 700 (1500), '
+        'several densities, small non-0/1 integers; also correlate(in1, ones) + sum(in2), the normalising numerator. sequence: real '
+        'OpticalMap.getSequence on both strands, window start/end, lattice and off-lattice labels, invalid resolution/radius, no labels. '
+        'seeding_correlation: real OpticalMap.getInitialAlignment(...).correlation (normalised floats, compared with the exact rational within 1e-9) '
+        'and InitialAlignment.refine(...).correlation/correlationStart/correlationEnd for noise-free copies (half of them at a lattice offset), '
+        'noisy copies, unrelated queries, both strands, queries longer than the reference, queries reaching beyond the reference\'s last label '
+        '(scipy\'s swapped branch), molecules without labels, empty secondary windows; scaled resolutions plus a few cases at the default 1400/1, 100/4, 8000. '
         'non-trivial = distinct inputs with a non-empty result')
 TRUSTED = ['adapter: fake correlations are objects with a .peaks list of real Peak objects; a peak is identified by its (unique) position',
            'np.argpartition is not modelled: the model takes the cut as an argument, the checker accepts any output that is a '
-           'sub-multiset of the right size with the same top scores (theorem C16_cut_harmless quantifies over every such cut)']
+           'sub-multiset of the right size with the same top scores (theorem C16_cut_harmless quantifies over every such cut)',
+           'scipy.signal.correlate(method=fft): floating-point rounding of the FFT is not modelled; np.rint of its output is compared with the exact '
+           'integer model (the check also fails if an output is further than 1e-6 from an integer); normalised correlation compared within 1e-9',
+           'scipy.signal.find_peaks is not modelled (it runs inside the real getInitialAlignment/refine calls; its output is ignored here)']
 ASSUMPTIONS = ['labels ascending (CMAP reader sorts them, C17); resolution >= 1',
                'heights, noise levels and scores are integer-valued floats in the generated cases, so height - noiseLevel and comparisons are exact',
                'positions=[] with end None/0 raises IndexError in the code (positions[-1]); the model (vectorise_py) returns Err there and the '
-               'pure model `vectorise` (last ps 0) is only claimed for the inputs where the code returns']
+               'pure model `vectorise` (last ps 0) is only claimed for the inputs where the code returns',
+               'lag theorems (C16_xcorr_*, C06_true_lag_*, C11_sequence_mirror): reference vector at least as long as the query vector, both non-empty; '
+               'the model function correlate_valid itself also covers scipy\'s swapped branch and the IndexError on an empty vector']
 
 LIST_PRELUDE = '''From Coq Require Import ZArith List Bool. Import ListNotations.
 Require Import Py Vec Peaks. Open Scope Z_scope.
@@ -529,4 +542,365 @@ class Seeds(Stream):
         return repr(case) if out.get('scores') else None
 
 
-STREAMS = [VecExh(), VecRandom(), VecMalformed(), BlurExh(), BlurRandom(), Centre(), PeaksExh(), PeaksRandom(), Create(), Seeds()]
+# ------------------------------------------------------------------------------------------------ cross-correlation (model/Correlate.v)
+# scipy's FFT output is compared after np.rint: the true values are integers (see the header of model/Correlate.v).
+XC_PRELUDE = """From Coq Require Import ZArith List Bool. Import ListNotations.
+Require Import Py Vec Peaks Correlate. Open Scope Z_scope.
+Fixpoint eql (a b : list Z) := match a, b with [], [] => true | x :: s, y :: t => (x =? y) && eql s t | _, _ => false end.
+Definition agree (r : Py.res (list Z)) (o : option (list Z)) := match r, o with Ok v, Some w => eql v w | Err, None => true | _, _ => false end.
+"""
+
+
+def _get_correlation():
+    from src.correlation.optical_map import OpticalMap
+    return OpticalMap._OpticalMap__getCorrelation          # the code's own wrapper: correlate(reference, query, mode='valid', method='fft')
+
+
+def canon_corr(f):
+    import numpy as np
+    try:
+        v = np.asarray(f())
+        rv = np.rint(v)
+        if v.size and float(np.max(np.abs(v - rv))) > 1e-6:
+            return dict(err='HARNESS:correlation value not within 1e-6 of an integer')
+        return dict(v=[int(x) for x in rv])
+    except Exception as e:
+        return dict(err=type(e).__name__)
+
+
+def xcorr_direct(a, b):
+    """'valid' cross-correlation by its definition (independent of scipy and of the model); None where scipy raises"""
+    if not a or not b:
+        return None
+    if len(b) > len(a):
+        return xcorr_direct(b, a)[::-1]
+    return [sum(a[k + i] * b[i] for i in range(len(b))) for k in range(len(a) - len(b) + 1)]
+
+
+class XcorrBase(Stream):
+    shard = 300
+    case_type = '(list Z * list Z * option (list Z) * option (list Z))%type'
+    # (in1, in2, correlate(in1, in2), correlate(in1, ones(len(in2))) + sum(in2))
+    prelude = XC_PRELUDE + """Definition check (c : list Z * list Z * option (list Z) * option (list Z)) : Z :=
+  match c with (a, b, o, n) =>
+    if agree (correlate_valid a b) o
+       && agree (match correlate_valid a (repeat 1 (length b)) with Ok w => Ok (map (fun x => x + vsum b) w) | Err => Err end) n
+       && (if (length b <=? length a)%nat then match n with Some w => eql (norm2 a b) w | None => Nat.eqb (length b) 0 end else true)
+    then 0 else 1 end."""
+
+    def impl(self, case):
+        import numpy as np
+        corr = _get_correlation()
+        a, b = np.array(case['a'], dtype=np.int64), np.array(case['b'], dtype=np.int64)
+        return dict(c=canon_corr(lambda: corr(a, b)), n=canon_corr(lambda: corr(a, np.ones(len(b))) + np.sum(b)))
+
+    def term(self, case, out):
+        return '(%s, %s, %s, %s)' % (zl(case['a']), zl(case['b']), optl(out['c']), optl(out['n']))
+
+    def oracle(self, case, out):
+        a, b = case['a'], case['b']
+        exp = xcorr_direct(a, b)
+        o = out['c']
+        if exp is None:
+            return [] if o.get('err') == 'IndexError' else ['empty input: expected IndexError, got %s (in1=%s in2=%s)' % (o, a, b)]
+        if 'err' in o:
+            return ['correlate raised %s (in1=%s in2=%s)' % (o['err'], a, b)]
+        if o['v'] != exp:
+            return ['correlate(in1, in2, valid) = %s, by definition %s (in1=%s in2=%s)' % (o['v'], exp, a, b)]
+        if all(x in (0, 1) for x in a + b) and len(b) <= len(a):
+            ones = sum(b)
+            for k, x in enumerate(exp):
+                if not (0 <= x <= ones and x <= sum(a[k:k + len(b)])):
+                    return ['entry %d = %d outside [0, min(ones of query, ones of window)] (in1=%s in2=%s)' % (k, x, a, b)]
+        return []
+
+    def classify(self, case, out):
+        a, b = case['a'], case['b']
+        return ['empty input' if not a or not b else 'swapped (in2 longer)' if len(b) > len(a) else 'equal lengths' if len(a) == len(b) else 'in1 longer',
+                '0/1' if all(x in (0, 1) for x in a + b) else 'other integers']
+
+    def nontrivial(self, case, out):
+        return repr(case) if out['c'].get('v') and any(out['c']['v']) else None
+
+
+class XcorrExh(XcorrBase):
+    name = 'xcorr'
+    exhaustive = True
+
+    def gen(self, rng, tier):
+        na, nb = (6, 4) if tier == 'quick' else (8, 5)
+        A = [list(v) for k in range(0, na + 1) for v in itertools.product([0, 1], repeat=k)]
+        B = [list(v) for k in range(0, nb + 1) for v in itertools.product([0, 1], repeat=k)]
+        return [dict(a=a, b=b) for a in A for b in B]
+
+
+class XcorrRandom(XcorrBase):
+    name = 'xcorr_random'
+    shard = 25
+
+    def gen(self, rng, tier):
+        n = 250 if tier == 'quick' else 1500
+        out = []
+        for _ in range(n):
+            la = rng.choice([rng.randint(1, 30), rng.randint(1, 400), rng.randint(200, 1500 if tier != 'quick' else 700)])
+            lb = rng.choice([rng.randint(1, la), rng.randint(1, la), max(1, la - rng.randint(0, 3)), la + rng.randint(1, 20)])
+            da, db = rng.choice([0.03, 0.2, 0.6, 1.0]), rng.choice([0.05, 0.3, 0.9])
+            vals = [1] if rng.random() < 0.85 else [1, 2, 3, -1]
+            out.append(dict(a=[rng.choice(vals) if rng.random() < da else 0 for _ in range(la)],
+                            b=[rng.choice(vals) if rng.random() < db else 0 for _ in range(lb)]))
+        return out
+
+
+# ------------------------------------------------------------------------------------------------ OpticalMap.getSequence, both strands
+def mirror_positions(ps, length):
+    return [length - 1 - p for p in reversed(ps)]
+
+
+def gen_labels(rng, n, lo, hi, lattice=None):
+    if lattice:
+        return sorted(set(rng.randint(lo // lattice, hi // lattice) * lattice for _ in range(n)))
+    return sorted(set(rng.randint(lo, hi) for _ in range(n)))
+
+
+class Sequence(Stream):
+    """real OpticalMap.getSequence(SequenceGenerator(resolution, blur), reverseStrand, start, end) vs get_sequence_py"""
+    name = 'sequence'
+    shard = 30
+    case_type = '(list Z * list (Z * Z * bool * Z * option Z * option (list Z)))%type'
+    prelude = XC_PRELUDE + """Definition check (c : list Z * list (Z * Z * bool * Z * option Z * option (list Z))) : Z :=
+  if forallb (fun t => match t with (res, r, rv, s, e, o) => agree (get_sequence_py (fst c) res r rv s e) o end) (snd c) then 0 else 1."""
+
+    def gen(self, rng, tier):
+        n = 250 if tier == 'quick' else 1200
+        out = [dict(ps=ps, cfg=[[res, r, rv, s, e] for res in (1, 2, 3) for r in (0, 1, 2) for rv in (False, True) for s, e in ((0, None), (-2, 7), (3, 0))])
+               for k in range(0, 4) for ps in itertools.combinations(range(0, 9), k)]
+        for _ in range(n):
+            res = rng.choice([1, 2, 5, 10, 100, 140])
+            top = res * rng.choice([5, 40, 300])
+            lattice = res if rng.random() < 0.3 else None
+            ps = gen_labels(rng, rng.randint(1, 50), 0, top, lattice)
+            if rng.random() < 0.6:
+                ps = [p - ps[0] for p in ps]                      # trimmed
+            cfg = []
+            for _ in range(4):
+                s, e = rng.choice([(0, None), (0, None), (rng.randint(-top // 3, top), rng.choice([None, 0, rng.randint(-5, 2 * top)])),
+                                   (ps[len(ps) // 2] - 3 * res, ps[len(ps) // 2] + rng.randint(0, 20) * res)])
+                cfg.append([rng.choice([res, res, res + 1, max(1, res // 2)]), rng.choice([0, 1, 1, 2, 4, 9]), rng.random() < 0.5, s, e])
+            if rng.random() < 0.08:
+                cfg.append([rng.choice([0, -3]), 1, False, 0, None])
+                cfg.append([res, rng.choice([-1, -2]), True, 0, None])
+            out.append(dict(ps=ps, cfg=cfg))
+        return out
+
+    def impl(self, case):
+        from src.correlation.optical_map import OpticalMap
+        from src.correlation.sequence_generator import SequenceGenerator
+        m = OpticalMap(1, (case['ps'][-1] + 1) if case['ps'] else 1, list(case['ps']))
+        return [canon(lambda: m.getSequence(SequenceGenerator(res, r), rv, s, e)) for res, r, rv, s, e in case['cfg']]
+
+    def term(self, case, out):
+        return '(%s, %s)' % (zl(case['ps']), clist('(%s,%s,%s,%s,%s,%s)' % (z(res), z(r), 'true' if rv else 'false', z(s), opt(e), optl(o))
+                                                   for (res, r, rv, s, e), o in zip(case['cfg'], out)))
+
+    def oracle(self, case, out):
+        """the reverse-strand sequence is the forward one reversed; the forward one is blur(vectorise) by the bit semantics"""
+        errs = []
+        by = {}
+        for (res, r, rv, s, e), o in zip(case['cfg'], out):
+            by[(res, r, rv, s, e)] = o
+            if res >= 1 and r >= 0 and (case['ps'] or e) and 'err' in o:
+                errs.append('getSequence raised %s (positions=%s resolution=%s blur=%s start=%s end=%s)' % (o['err'], case['ps'], res, r, s, e))
+            if 'v' in o and not rv:
+                bits = set()
+                for p in case['ps']:
+                    if p >= s: bits.add((p - s) // res)
+                L = len(o['v'])
+                exp = [1 if any(0 <= j < L and j in bits for j in range(i - r, i + r + 1)) else 0 for i in range(L)]
+                if o['v'] != exp:
+                    errs.append('forward sequence is not the dilation of the occupied bins (positions=%s resolution=%s blur=%s start=%s end=%s output=%s)' % (
+                        case['ps'], res, r, s, e, o['v']))
+        for (res, r, rv, s, e), o in by.items():
+            f = by.get((res, r, not rv, s, e))
+            if f is not None and 'v' in o and 'v' in f and o['v'] != f['v'][::-1]:
+                errs.append('reverse-strand sequence is not the reversed forward sequence (positions=%s resolution=%s blur=%s)' % (case['ps'], res, r))
+        return errs[:3]
+
+    def classify(self, case, out):
+        k = set()
+        for (res, r, rv, s, e), o in zip(case['cfg'], out):
+            k.add('raises ' + o['err'] if 'err' in o else ('reverse strand' if rv else 'forward strand'))
+            if 'v' in o and (s != 0 or e): k.add('window start/end')
+        return sorted(k)
+
+    def nontrivial(self, case, out):
+        return repr(case) if any(o.get('v') and 1 in o['v'] for o in out) else None
+
+
+# ------------------------------------------------------------------------------------------------ getInitialAlignment / refine correlations
+SCALE = 10 ** 12
+
+
+def canon_float(v):
+    import math
+    return [int(round(float(x) * SCALE)) if math.isfinite(float(x)) else None for x in v]
+
+
+def gen_seeding_case(rng, scale, realistic=False):
+    """reference + query (noise-free or noisy copy on either strand, unrelated, too long, beyond the reference's last label, malformed)"""
+    res1, r1, res2, r2, margin = (1400, 1, 100, 4, 8000) if realistic else rng.choice([(14 * scale, 1, scale, 4, 80 * scale), (10 * scale, 2, 2 * scale, 1, 30 * scale),
+                                                                                        (7 * scale, 0, scale, 3, 50 * scale), (5 * scale, 1, 5 * scale, 1, 20 * scale)])
+    gap = 90 * res2 if realistic else rng.choice([6, 20, 50]) * res2
+    lattice = rng.choice([None, None, res1, res2])
+    nr = rng.randint(20, 90)
+    rps, p = [], rng.randint(0, gap)
+    for _ in range(nr):
+        rps.append(p)
+        p += max(1, int(rng.expovariate(1.0 / gap)) + gap // 5)
+    if lattice:
+        rps = sorted(set(x // lattice * lattice for x in rps))
+    tail = rng.choice([1, rng.randint(1, gap), 40 * gap])
+    rlen = rps[-1] + tail
+    kind = rng.choice(['copy', 'copy', 'copy', 'noisy', 'noisy', 'unrelated', 'too long', 'beyond last label', 'no labels', 'whole reference'])
+    if kind == 'whole reference':                                 # query molecule exactly as long as the reference molecule
+        rps = [x - rps[0] for x in rps[:rng.randint(3, 12)]]
+        rlen = rps[-1] + 1
+    rev = rng.random() < 0.5
+    n = rng.randint(3, min(16 if realistic else 24, len(rps) - 2)) if kind != 'whole reference' else len(rps)
+    a = rng.randint(0, len(rps) - n)
+    if kind == 'copy' and rng.random() < 0.5:
+        d = (-rps[a]) % res1                                      # the copy starts at a multiple of both resolutions
+        rps = [x + d for x in rps]
+        rlen += d
+    qps = [x - rps[a] for x in rps[a:a + n]]
+    diag, window = rps[a], rps[a:a + n]
+    if kind == 'noisy':
+        qps = sorted(set(max(0, x + rng.randint(-2 * res2, 2 * res2)) for x in qps if rng.random() < 0.85) | set(rng.randint(0, qps[-1]) for _ in range(rng.randint(0, 3))))
+        qps = [x - qps[0] for x in qps] if qps else [0]
+    elif kind == 'unrelated':
+        qps = gen_labels(rng, n, 0, qps[-1] + 1)
+        qps = [x - qps[0] for x in qps]
+    elif kind == 'beyond last label':
+        qps = [0, rps[-1] + rng.randint(1, max(2, tail - 1))] if tail > 2 else qps
+    elif kind == 'no labels':
+        qps = []
+    qlen = (qps[-1] + 1) if qps else rng.randint(1, 1000)
+    if kind == 'too long':
+        qlen = rlen + rng.randint(1, 50)
+    if rev and qps:
+        qps = mirror_positions(qps, qlen) if kind != 'too long' else mirror_positions(qps, qps[-1] + 1)
+    peaks = [diag, diag + rng.randint(-3 * res1, 3 * res1), rng.randint(-margin, rlen), rps[-1] - rng.randint(0, qlen), rps[-1] + margin + rng.randint(1, 1000)]
+    if realistic:
+        peaks = peaks[:2]
+    if kind == 'unrelated' and rng.random() < 0.2:
+        kind, rps = 'reference without labels', []
+    return dict(kind=kind, diag=diag, window=window, qlen=qlen, qps=qps, rlen=rlen, rps=rps, res=res1, r=r1, rev=rev, res2=res2, r2=r2, margin=margin, peaks=peaks)
+
+
+class Seeding(Stream):
+    """real OpticalMap.getInitialAlignment(...).correlation (normalised; compared with the exact rational within 1e-9) and
+    InitialAlignment.refine(...).correlation / correlationStart / correlationEnd (integers) vs initial_correlation / refine_correlation"""
+    name = 'seeding_correlation'
+    shard = 4
+    case_type = '(Z * list Z * Z * list Z * (Z * Z * bool) * option (option (list (option Z))) * list (Z * Z * Z * Z * option (Z * Z * list Z)))%type'
+    prelude = XC_PRELUDE + """Definition close (x n2 : Z) (f : option Z) : bool :=
+  match f with None => n2 =? 0 | Some F => (0 <? n2) && (Z.abs (F * n2 - 2 * x * 1000000000000) <=? n2 * 1000) end.
+Fixpoint close_all (xs ns : list Z) (fs : list (option Z)) : bool :=
+  match xs, ns, fs with [], [], [] => true | x :: xs', n :: ns', f :: fs' => close x n f && close_all xs' ns' fs' | _, _, _ => false end.
+(* qlen, qps, rlen, rps, (res, blur, reverse), initial: None = raised, Some None = EmptyInitialAlignment, Some (Some floats*10^12);
+   refines: (peak, res2, blur2, margin, None = raised | Some (start, end, correlation)) *)
+Definition check (c : Z * list Z * Z * list Z * (Z * Z * bool) * option (option (list (option Z))) * list (Z * Z * Z * Z * option (Z * Z * list Z))) : Z :=
+  match c with (qlen, qps, rlen, rps, (res, r, rv), ini, refs) =>
+    let a := match initial_correlation qlen qps rlen rps res r rv, ini with
+             | Err, None => true
+             | Ok None, Some None => true
+             | Ok (Some (xs, ns)), Some (Some fs) => close_all xs ns fs
+             | _, _ => false end in
+    let b := forallb (fun t => match t with (peak, res2, r2, margin, o) =>
+               match refine_correlation qlen qps rps rv peak res2 r2 margin, o with
+               | Err, None => true
+               | Ok (s, e, xs), Some (s', e', ys) => (s =? s') && (e =? e') && eql xs ys
+               | _, _ => false end end) refs in
+    if a && b then 0 else 1 end."""
+
+    def gen(self, rng, tier):
+        n, m = (60, 3) if tier == 'quick' else (300, 20)
+        return [gen_seeding_case(rng, rng.choice([1, 1, 3, 10])) for _ in range(n)] + [gen_seeding_case(rng, 100, realistic=True) for _ in range(m)]
+
+    def impl(self, case):
+        import numpy as np
+        from src.correlation.optical_map import OpticalMap, EmptyInitialAlignment, InitialAlignment
+        from src.correlation.sequence_generator import SequenceGenerator
+        q, ref = OpticalMap(7, case['qlen'], list(case['qps'])), OpticalMap(1, case['rlen'], list(case['rps']))
+        out = dict(refine=[])
+        try:
+            ia = q.getInitialAlignment(ref, SequenceGenerator(case['res'], case['r']), 5 * case['res'], 5, case['rev'])
+            out['initial'] = dict(empty=True) if isinstance(ia, EmptyInitialAlignment) else dict(f=canon_float(ia.correlation))
+        except Exception as e:
+            out['initial'] = dict(err=type(e).__name__)
+        # refine is a method of the InitialAlignment object; it only reads query, reference and reverseStrand
+        holder = InitialAlignment(np.array([]), q, ref, [], case['rev'], 0.)
+        for pk in case['peaks']:
+            try:
+                rf = holder.refine(pk, SequenceGenerator(case['res2'], case['r2']), case['margin'], 15.)
+                c = np.asarray(rf.correlation)
+                if c.size and float(np.max(np.abs(c - np.rint(c)))) > 1e-6:
+                    raise ArithmeticError('non-integer correlation')
+                out['refine'].append(dict(s=int(rf.correlationStart), e=int(rf.correlationEnd), v=[int(x) for x in np.rint(c)]))
+            except Exception as e:
+                out['refine'].append(dict(err=type(e).__name__))
+        return out
+
+    def term(self, case, out):
+        ini = out['initial']
+        it = 'None' if 'err' in ini else '(Some None)' if ini.get('empty') else '(Some (Some %s))' % clist('None' if x is None else '(Some %s)' % z(x) for x in ini['f'])
+        refs = clist('(%s,%s,%s,%s,%s)' % (z(pk), z(case['res2']), z(case['r2']), z(case['margin']),
+                                          'None' if 'err' in o else '(Some (%s,%s,%s))' % (z(o['s']), z(o['e']), zl(o['v'])))
+                     for pk, o in zip(case['peaks'], out['refine']))
+        return '(%s, %s, %s, %s, (%s,%s,%s), %s, %s)' % (z(case['qlen']), zl(case['qps']), z(case['rlen']), zl(case['rps']), z(case['res']), z(case['r']),
+                                                         'true' if case['rev'] else 'false', it, refs)
+
+    @staticmethod
+    def theorem_applies(case, res):
+        """hypotheses of C06_true_lag_is_global_max / C06_true_lag_window_normalised for the resolution res (reference vector from 0)"""
+        if case['kind'] not in ('copy', 'whole reference') or not case['qps'] or case['diag'] % res:
+            return False
+        return (not case['rev']) or all((x - case['diag']) % res == 0 for x in case['window'])
+
+    def oracle(self, case, out):
+        """theorems C16_normalised / C06_true_lag_*: no normalised entry exceeds 1; for a noise-free copy of consecutive labels at a lattice
+        offset the normalised primary correlation at the true lag is 1, and the raw secondary correlation at the true lag equals the
+        number of 1-bits of the query vector, its global maximum (the secondary window starts at peak - margin, a multiple of the
+        secondary resolution away from the true diagonal in every generated case: the theorem shifted by the window start)"""
+        errs = []
+        ini = out['initial']
+        if 'f' in ini and any(x is not None and x > SCALE + 1000 for x in ini['f']):
+            errs.append('normalised correlation above 1 (case %s)' % {k: case[k] for k in ('qps', 'rps', 'res', 'r', 'rev')})
+        if 'f' in ini and self.theorem_applies(case, case['res']):
+            lag = case['diag'] // case['res']
+            if not (lag < len(ini['f']) and ini['f'][lag] is not None and abs(ini['f'][lag] - SCALE) <= 1000):
+                errs.append('noise-free copy at a lattice offset: normalised primary correlation at the true lag %d is not 1 (%s)' % (lag, ini['f'][:lag + 2]))
+        if case['kind'] == 'copy' and case['qps'] and 'v' in out['refine'][0] and (not case['rev'] or self.theorem_applies(case, case['res2'])):
+            o = out['refine'][0]
+            from src.correlation.vectorise import vectorisePositions, blur
+            fwd = [x - case['diag'] for x in case['window']]
+            ones = int(sum(blur(list(vectorisePositions(fwd, case['res2'])), case['r2'])))
+            lag = (case['peaks'][0] - o['s']) // case['res2']
+            if o['v'] and (max(o['v']) > ones or not (0 <= lag < len(o['v']) and o['v'][lag] == ones)):
+                errs.append('noise-free copy: secondary correlation at the true lag %d is not the maximum %d (correlation=%s)' % (lag, ones, o['v']))
+        return errs
+
+    def classify(self, case, out):
+        k = [case['kind'], 'reverse strand' if case['rev'] else 'forward strand', 'default resolutions' if case['res'] == 1400 else 'scaled resolutions']
+        if self.theorem_applies(case, case['res']): k.append('hypotheses of C06_true_lag_is_global_max hold (primary)')
+        ini = out['initial']
+        k.append('initial: raises ' + ini['err'] if 'err' in ini else 'initial: empty' if ini.get('empty') else 'initial: correlation')
+        for o in out['refine']:
+            k.append('refine: raises ' + o['err'] if 'err' in o else 'refine: empty window' if not o['v'] else 'refine: correlation')
+        return sorted(set(k))
+
+    def nontrivial(self, case, out):
+        return repr(case) if out['initial'].get('f') or any(o.get('v') for o in out['refine']) else None
+
+
+STREAMS = [VecExh(), VecRandom(), VecMalformed(), BlurExh(), BlurRandom(), Centre(), PeaksExh(), PeaksRandom(), Create(), Seeds(),
+           XcorrExh(), XcorrRandom(), Sequence(), Seeding()]
